@@ -13,7 +13,7 @@ pub fn run(ctx: &mut Ctx) {
     if part.is_empty() || part == "sparse_exh" { sparse_exhaustive(ctx); }
     if part.is_empty() || part == "rl_exh" { rl_exhaustive(ctx); }
     if part.is_empty() || part == "sparse_rand" { sparse_random(ctx); }
-    if part.is_empty() || part == "rl_rand" { rl_random(ctx); }
+    if part.is_empty() || part == "rl_rand" { rl_random(ctx); rl_fit(ctx); }
 }
 
 //-----------------------------------------------------------------------------
@@ -328,6 +328,43 @@ fn rl_exhaustive(ctx: &mut Ctx) {
         }
     }
     ctx.count("rl_exh.sequences", sequences);
+}
+
+// Runs that meet the end of a 64-unit block in every possible way (see C03 `fit`), fed to the builder one call at a
+// time with a conversion of a clone right after the run under test and at the end.
+fn rl_fit(ctx: &mut Ctx) {
+    let classes: Vec<usize> = if ctx.quick() { vec![1, 2, 8, 20, 21, 22] } else { (1..=22).collect() };
+    let mut index = 0u64;
+    for fill in 0..64usize {
+        for &gu in classes.iter() {
+            for &ru in classes.iter() {
+                index += 1;
+                if !ctx.mine(index) { continue; }
+                let mut rng: Rng = ctx.rng(0xC16_F00 + index);
+                let (runs, n) = match crate::drivers::c03::fit_runs(fill, gu, ru, &mut rng) { Some(x) => x, None => continue };
+                if !ctx.begin_case() { continue; }
+                let mut b = RLBuilder::new();
+                let mut m = RModel { len: 0, ones: 0, runs: Vec::new() };
+                let mut log: Vec<String> = Vec::new();
+                let under_test = runs.len() - 3;
+                let mut ok = true;
+                for (k, &(s0, l0)) in runs.iter().enumerate() {
+                    let op = ROp::TrySet(s0, l0);
+                    log.push(format!("{:?}", op));
+                    let hist = || format!("RLBuilder::new(); {}", log.join("; "));
+                    if !r_step(ctx, &mut b, &mut m, &op, &hist) { ok = false; break; }
+                    if k + 1 >= under_test && !r_step(ctx, &mut b, &mut m, &ROp::Convert, &hist) { ok = false; break; }
+                }
+                if ok {
+                    log.push(format!("SetLen({})", n));
+                    let hist = || format!("RLBuilder::new(); {}; final convert", log.join("; "));
+                    if r_step(ctx, &mut b, &mut m, &ROp::SetLen(n), &hist) { r_step(ctx, &mut b, &mut m, &ROp::Convert, &hist); }
+                }
+                ctx.case(hash64(&[0xF17, fill as u64, gu as u64, ru as u64]), true);
+                ctx.sample(|| format!("rl fit: block holds {} units, next run needs {} + {} units; conversion of a clone after every later call", fill, gu, ru));
+            }
+        }
+    }
 }
 
 fn rl_random(ctx: &mut Ctx) {
